@@ -142,8 +142,13 @@ def test(inp):
     vertices, triangles, cells = numpy.asarray(vertices), numpy.asarray(triangles), numpy.asarray(cells)
     if len(triangles) != len(cells):
         return f'{len(triangles)} triangles but {len(cells)} cell indexes'
+    for what, arr in (('triangle vertex indexes', triangles), ('cell indexes', cells)):
+        if arr.size and (arr.dtype.kind not in 'iu' and not (arr.dtype.kind == 'f' and numpy.isfinite(arr).all() and (arr == numpy.floor(arr)).all())):
+            return f'the {what} are not integers (dtype {arr.dtype}, e.g. {arr.ravel()[~numpy.isfinite(arr.ravel().astype(float))][:1].tolist() or arr.ravel()[:1].tolist()})'
     if len(triangles) and (triangles.min() < 0 or triangles.max() >= len(vertices)):
         return 'a triangle refers to a vertex that does not exist'
+    if len(cells) and (cells.min() < 0 or cells.max() >= len(polys)):
+        return 'a triangle refers to a cell that does not exist'
     vs = [tuple(map(float, v)) for v in vertices]
     if len(set(vs)) != len(vs):
         return 'the vertex list holds a vertex twice'
